@@ -15,12 +15,12 @@ import (
 
 type gen struct {
 	pFault float64
-	im    *impl
-	rng   *rand.Rand
-	lines []string
-	outs  []string
-	feat  map[string]bool
-	snapN int
+	im     *impl
+	rng    *rand.Rand
+	lines  []string
+	outs   []string
+	feat   map[string]bool
+	snapN  int
 }
 
 func full(h string) string { return "tcp://" + h + ":9502" }
